@@ -21,7 +21,10 @@ def run(ctx):
     parsed = [(l, len(json.loads(l)["posts"])) for l in lines]
     singles = [l for l, n in parsed if n == 1]
     pairs = [l for l, n in parsed if n == 2]
-    keep = singles + (pairs if thorough else rng.sample(pairs, min(len(pairs), 3500)))
+    wide = [l for l, n in parsed if n > 2]
+    if len(wide) < 6:
+        raise Infra("vacuity guard: the wide posting lists of Postings.tla were not emitted")
+    keep = wide + singles + (pairs if thorough else rng.sample(pairs, min(len(pairs), 3500)))
     # length-3 lists: sampled chains built from pairs (receive-then-spend)
     cases = ctx.path("cases.ndjson")
     with open(cases, "w") as f:
@@ -57,7 +60,7 @@ def run(ctx):
     ctx.coverage.update({
         "states": g.get("distinct", 0), "transitions": g.get("generated", 0), "traces_validated_against_impl": st["submissions"],
         "evaluations": st["submissions"], "distinct_nontrivial": st["cases"],
-        "rule": "posting lists = every list of 1 posting and %s lists of 2 postings over {a, b, world}^2 x 2 assets x amounts {0,1,2} (repeats, self-transfers, world on either side, receive-then-spend) x 6 balance tables; each submitted 6 times: Commander x 3 value bindings (plain / odd address+asset forms / amounts x 2^70) and the v2, v1 and bulk endpoints; distinct = distinct (list, balances)" % ("all" if thorough else "a seeded sample of 3500"),
+        "rule": "posting lists = 6 wide lists (11-14 postings over up to 14 distinct accounts and amounts: fan-out, chain, two assets, overdrawing chain), every list of 1 posting and %s lists of 2 postings over {a, b, world}^2 x 2 assets x amounts {0,1,2} (repeats, self-transfers, world on either side, receive-then-spend) x 6 balance tables; each submitted 7 times: Commander x 3 value bindings (plain / odd address+asset forms / amounts x 2^70) and the v2, v1 and bulk endpoints; distinct = distinct (list, balances)" % ("all" if thorough else "a seeded sample of 3500"),
         "accepted": st["accepted"], "rejected": st["submissions"] - st["accepted"], "predicate_failures": counts,
         "samples": st["samples"][:1], "exhaustive": thorough,
     })
